@@ -123,7 +123,10 @@ def roundtrip_task(task):
         n = rng.choice([2, 2, 3, 4])
         stack = rng.choice([200, 1000, 20000])
         nl = rng.random() < 0.8
-        game = (pk.NoLimitTexasHoldem(autos, True, 0, (50, 100), 100) if nl else pk.FixedLimitTexasHoldem(autos, True, 0, (50, 100), 100, 200))
+        # some hands turn the board over one card at a time (several BoardDealing operations per street): a street is still one group
+        piecemeal = rng.random() < 0.3
+        au = tuple(a for a in autos if not (piecemeal and a == A.BOARD_DEALING))
+        game = (pk.NoLimitTexasHoldem(au, True, 0, (50, 100), 100) if nl else pk.FixedLimitTexasHoldem(au, True, 0, (50, 100), 100, 200))
         s = game(stack, n)
         committed = [0] * n
         for i in range(n):
@@ -132,8 +135,12 @@ def roundtrip_task(task):
         raise_tokens = []
         try:
             steps = 0
-            while s.status and s.actor_index is not None and steps < 60:
+            while s.status and (s.actor_index is not None or s.can_deal_board()) and steps < 80:
                 steps += 1
+                if s.actor_index is None:
+                    while s.can_deal_board():
+                        s.deal_board(1)
+                    continue
                 a = s.actor_index
                 r = rng.random()
                 before_board = len(s.board_cards)
@@ -155,8 +162,11 @@ def roundtrip_task(task):
             continue
         # separators: one per board dealing, placed where the dealing happened in the log
         ref = ''
+        last_was_deal = False
         for o in s.operations:
             t = type(o).__name__
+            same_street = last_was_deal and t == 'BoardDealing'       # consecutive dealings (no burn in between) are one street
+            last_was_deal = t == 'BoardDealing'
             if t == 'Folding':
                 ref += 'f'
             elif t == 'CheckingOrCalling':
@@ -164,7 +174,8 @@ def roundtrip_task(task):
             elif t == 'CompletionBettingOrRaisingTo':
                 ref += 'R'
             elif t == 'BoardDealing':
-                ref += '/'
+                if not same_street:
+                    ref += '/'
         it = iter(raise_tokens)
         want_actions = ''.join(next(it) if ch == 'R' else ch for ch in ref)
         try:
@@ -174,7 +185,13 @@ def roundtrip_task(task):
                 line = hh.to_pluribus_protocol()
                 parts = line.split(':')
                 payoffs = '|'.join(str(x) for x in s.payoffs)
-                boards = ''.join('/' + ''.join(map(repr, o.cards)) for o in s.operations if type(o).__name__ == 'BoardDealing')
+                boards, prev_deal = '', False
+                for o in s.operations:
+                    if type(o).__name__ == 'BoardDealing':
+                        boards += ('' if prev_deal else '/') + ''.join(map(repr, o.cards))
+                        prev_deal = True
+                    else:
+                        prev_deal = False
                 holes = '|'.join(''.join(repr(c) for c in hc) if hc else '' for hc in
                                  [[c for o in s.operations if type(o).__name__ in ('HoleDealing',) and o.player_index == i for c in o.cards] for i in range(n)])
                 if parts[0] != 'STATE' or parts[1] != str(h) or parts[2] != want_actions or parts[4] != payoffs:
